@@ -65,7 +65,7 @@ def run_interleaving(story, order, flows, scratch, extras, tag):
                 k = rngs[fi].randrange(len(cs))
                 r = sess.send(["choose", k])
                 per_flow[fi].append(("choose", k, r.get("r")))
-        if extras == "saveload" and step % 2 == 1:
+        if (extras == "saveload" and step % 2 == 1) or extras == "saveload_all":
             sess.send(["save", "s"]); sess.send(["load", "s"])
         elif extras == "away" and step % 2 == 0:
             sess.send(["switch", "scratchflow"]); sess.send(["switch", name])
@@ -126,7 +126,7 @@ def run(ctx):
         orders = [list(c) for c in set(itertools.permutations([0] * k + [1] * k))]
         rng.shuffle(orders)
         for oi, order in enumerate(orders[: (20 if quick else 70)]):
-            extras = [None, "saveload", "away", "default"][oi % 4]
+            extras = [None, "saveload", "away", "default", "saveload_all"][oi % 5]
             jobs.append((s, order, extras, ctx.seed * 1013 + si * 101 + oi, ctx.scratch))
         nfl = len(s["meta"]["flows"])
         if nfl >= 3:
